@@ -95,7 +95,8 @@ def run_case(case):
             r['tid'] = p['tid']
         except refframe.FrameError as e:
             r['tid'] = None
-            discs.append(Disc('request-frame', 'request %d: written bytes %s are not one frame: %s' % (idx, data.hex()[:60], e)))
+            if not (lost_flag[0] and not data):       # after the connection is lost a client need not write anything
+                discs.append(Disc('request-frame', 'request %d: written bytes %s are not one frame: %s' % (idx, data.hex()[:60], e)))
         def on_fail(f, r=r):
             r['failed'].append(f)
             if reissue and not r.get('reissued'):
